@@ -21,7 +21,13 @@ pub enum Kind {
   /// the body subscribes a probe to the hot subject and returns the subscription
   Sub,
   /// repeats until `limit` runs (declines at seq == limit)
-  Repeat { period_ms: u32, limit: u32 },
+  /// `first_ms`: `RepeatTask::with_first_delay(first, period, ..)`
+  Repeat {
+    period_ms: u32,
+    limit: u32,
+    #[serde(default)]
+    first_ms: Option<u32>,
+  },
   /// FutureTask over a future that is pending `polls` times (self-waking)
   Fut { polls: u32 },
   /// FutureTask over a virtual timer of `ms`
@@ -143,11 +149,11 @@ impl Scenario for C19Des {
       let kind = match rng.below(6) {
         0 | 1 => Kind::Once,
         2 => Kind::Sub,
-        3 => Kind::Repeat { period_ms: *rng.pick(&[1, 2, 5]), limit: rng.range(0, 4) as u32 },
+        3 => Kind::Repeat { period_ms: *rng.pick(&[1, 2, 5, 5, 1000]), limit: rng.range(0, 4) as u32, first_ms: if rng.chance(1, 3) { Some(*rng.pick(&[0, 1, 3, 7, 7, 1200])) } else { None } },
         4 => Kind::Fut { polls: rng.below(3) as u32 },
-        _ => Kind::FutTimer { ms: *rng.pick(&[0, 1, 5]) },
+        _ => Kind::FutTimer { ms: *rng.pick(&[0, 1, 5, 5, 1001]) },
       };
-      let delay_us = if rng.chance(1, 4) { None } else { Some(*rng.pick(&[0u32, 300, 999, 1000, 5000])) };
+      let delay_us = if rng.chance(1, 4) { None } else { Some(*rng.pick(&[0u32, 300, 999, 1000, 5000, 5000, 1_000_000, 1_200_500])) };
       tasks.push(TaskSpec { kind, delay_us });
     }
     let mut acts = Vec::new();
@@ -160,7 +166,7 @@ impl Scenario for C19Des {
           Act::Schedule(scheduled - 1)
         }
         0 | 1 => Act::Run(rng.below(8) as u16),
-        2 => Act::Advance(*rng.pick(&[1u32, 1, 2, 5, 13])),
+        2 => Act::Advance(*rng.pick(&[1u32, 1, 2, 5, 13, 13, 1000])),
         3 => Act::AdvanceNext,
         4 => Act::Cancel(rng.below(n)),
         5 => Act::Sample(rng.below(n)),
@@ -216,8 +222,12 @@ impl Scenario for C19Des {
           let h = match &spec.kind {
             Kind::Once => Handle::Normal(sched.schedule(OnceTask::new(once_body, args), delay)),
             Kind::Sub => Handle::Sub(sched.schedule(OnceTask::new(sub_body, args), delay)),
-            Kind::Repeat { period_ms, .. } => Handle::Normal(sched.schedule(
+            Kind::Repeat { period_ms, first_ms: None, .. } => Handle::Normal(sched.schedule(
               RepeatTask::new(Duration::from_millis(*period_ms as u64), repeat_body, args),
+              delay,
+            )),
+            Kind::Repeat { period_ms, first_ms: Some(f), .. } => Handle::Normal(sched.schedule(
+              RepeatTask::with_first_delay(Duration::from_millis(*f as u64), Duration::from_millis(*period_ms as u64), repeat_body, args),
               delay,
             )),
             Kind::Fut { polls } => {
@@ -359,8 +369,12 @@ fn check(case: &Case, logs: &Logs, probes: &[Arc<ProbeLog>]) -> Option<Violation
     };
     let _ = extra;
     match spec.kind {
-      Kind::Repeat { period_ms, .. } => {
+      Kind::Repeat { period_ms, first_ms, .. } => {
         let p = period_ms as u64 * MS;
+        // the task's own first timer is armed when the task is built (= when
+        // it is scheduled here): the first run waits for both that and the
+        // scheduling delay
+        let delay = delay.max(first_ms.map_or(0, |f| f as u64 * MS));
         for (i, r) in l.runs.iter().enumerate() {
           if r.2 != i {
             return Some(Violation {
@@ -532,7 +546,7 @@ impl Scenario for C19Threads {
       .map(|_| TaskSpec {
         kind: match rng.below(6) {
           0 | 1 => Kind::Once,
-          2 => Kind::Repeat { period_ms: 1, limit: rng.range(1, 3) as u32 },
+          2 => Kind::Repeat { period_ms: 1, limit: rng.range(1, 3) as u32, first_ms: if rng.chance(1, 3) { Some(rng.range(0, 3) as u32) } else { None } },
           3 | 4 => Kind::Sub,
           _ => Kind::Fut { polls: rng.below(3) as u32 },
         },
@@ -554,7 +568,7 @@ impl Scenario for C19Threads {
     }
     for t in &case.tasks {
       match t.kind {
-        Kind::Repeat { period_ms, limit } if period_ms == 0 || limit > 5 => return Err("bad repeat".into()),
+        Kind::Repeat { period_ms, limit, .. } if period_ms == 0 || limit > 5 => return Err("bad repeat".into()),
         Kind::FutTimer { .. } => return Err("kind not used in thread arm".into()),
         _ => {}
       }
@@ -583,7 +597,8 @@ impl Scenario for C19Threads {
           Some(match &spec.kind {
             Kind::Once => THandle::Normal(sched.schedule(OnceTask::new(t_once, args), delay)),
             Kind::Sub => THandle::Sub(sched.schedule(OnceTask::new(t_sub, args), delay)),
-            Kind::Repeat { period_ms, .. } => THandle::Normal(sched.schedule(RepeatTask::new(Duration::from_millis(*period_ms as u64), t_repeat, args), delay)),
+            Kind::Repeat { period_ms, first_ms: None, .. } => THandle::Normal(sched.schedule(RepeatTask::new(Duration::from_millis(*period_ms as u64), t_repeat, args), delay)),
+            Kind::Repeat { period_ms, first_ms: Some(f), .. } => THandle::Normal(sched.schedule(RepeatTask::with_first_delay(Duration::from_millis(*f as u64), Duration::from_millis(*period_ms as u64), t_repeat, args), delay)),
             Kind::Fut { polls } => THandle::Normal(sched.schedule(FutureTask::new(PendingK(*polls), t_fut, args), delay)),
             _ => unreachable!(),
           })
@@ -635,7 +650,7 @@ impl Scenario for C19Threads {
       let l = logs.lock().unwrap();
       for (k, t) in l.iter().enumerate() {
         let spec = &case.tasks[k];
-        let delay = spec.delay_us.unwrap_or(0) as u64 * 1000;
+        let delay = (spec.delay_us.unwrap_or(0) as u64 * 1000).max(if let Kind::Repeat { first_ms: Some(f), .. } = spec.kind { f as u64 * MS } else { 0 });
         if !matches!(spec.kind, Kind::Repeat { .. }) && t.runs.len() > 1 {
           violation = Some(Violation { rule: "c19.more-than-once".into(), site: site.clone(), detail: format!("task {} ran {} times", k, t.runs.len()) });
         }
